@@ -374,8 +374,22 @@ def z_raw(nm):
     return ring_raw(nm, families=Z_FAMILIES, maxarg=2, maxu=7, maxscript=2)
 
 
+def z_small_raw(n):
+    """zero-sized elements in buffers of ordinary small capacity (normal word width)"""
+    return ring_raw(n, families=Z_FAMILIES, maxarg=2, maxscript=2)
+
+
+DEFAULT_ITERS = {"id": "default-iterators", "n": 3, "ty": "t", "tags": ["iter"], "first_op": "iter_default", "steps": [
+    {"op": "iter_default", "v": 0}, {"op": "v_len", "v": 0}, {"op": "v_next", "v": 0}, {"op": "v_next_back", "v": 0},
+    {"op": "v_size_hint", "v": 0}, {"op": "v_clone", "v": 0, "v2": 1}, {"op": "v_next", "v": 1}, {"op": "v_drop", "v": 1},
+    {"op": "v_drop", "v": 0}, {"op": "iter_mut_default", "v": 0}, {"op": "v_len", "v": 0}, {"op": "v_next_back", "v": 0},
+    {"op": "v_next", "v": 0}, {"op": "v_size_hint", "v": 0}, {"op": "v_drop", "v": 0}]}
+
+
 def z_arg(i, nm, size, ncode):
     """an index argument of the small model as a code of the real word domain"""
+    if ncode in ('0', '1', '3', '5'):
+        return i          # ordinary small capacities: the model's capacity is the real one
     if i < size + 2 and i < nm - 1:
         return i
     if ncode == 'max':
